@@ -1272,8 +1272,8 @@ def item_asym(it, acc):
         sub = {n: v[s:s + ch] for n, v in cols.items()}
         li += 1
         acc.run("spread-dataarray:asymmetric", dict(kind="spread", func="asymmetric", dir=d, freq=f, params=as_specs(sub, len(sub["dm"]), ["case", "time_site"][li % 2])))
-    # scalar parameters: the whole product in thorough, every 7th element (all menu values still occur) in quick
-    step = 1 if it["tier"] == "thorough" and len(d) <= 12 else 7
+    # scalar parameters: every 7th element of the product (thorough, nd=12: every 3rd); all menu values still occur
+    step = 3 if it["tier"] == "thorough" and len(d) <= 12 else 7
     for i in range(0, N, step):
         acc.run("spread-scalar:asymmetric", dict(kind="spread", func="asymmetric", dir=d, freq=f, freq_type=["ndarray", "list", "dataarray"][i % 3],
                                                   dir_type=["dataarray", "ndarray", "list"][i % 3], params={n: S(v[i]) for n, v in cols.items()}), sample=(i == 0))
